@@ -26,7 +26,7 @@ CHECKS = {
  'C05': dict(
     engine='stream-world', category='exploration', design_ref='DESIGN.md section 3 (C05)',
     text='Seeded search over arrival schedules (chunking at structural cut points, empty polls, would-block and short reads, '
-         'late or simultaneous end-of-stream) of streams of 1-4 encodings (the library encoder's output and equivalent BER variant '
+         'late or simultaneous end-of-stream) of streams of 1-4 encodings (the output of the library encoder and equivalent BER variant '
          'forms) on three stream doubles, plus exhaustive parts: every single split point of sampled streams, every one of the '
          '2^(n-1) partitions of short streams, and for very short streams every assignment of one of six behaviours (join, split, '
          'split + empty poll, would-block read, short read, short read + empty poll) to every byte boundary; invariants I1-I6 '
